@@ -330,3 +330,120 @@ def size_class(ctx, fx, fid, index_rx, carve_rx, rule="R-CLASS"):
                           "the next request of the same class and overlap its neighbour" % c["f"].rsplit("::", 1)[-1],
                           fn.file, c["ln"])
     return n
+
+
+# ------------------------------------------------------------------ R-VIEW (narrow form)
+def view_capacity(ctx, fx, adt, len_field, cap_field, files, rule="R-VIEW"):
+    """a (pointer, requested length, mapped length) record: wherever the struct is built, the mapped length either is
+    computed from the requested length (rounding) or is compared with it on a dominating, refusing branch. A mapped
+    length that arrives from somewhere else (a cache of regions keyed by a lossy size class) may be shorter than the
+    request: the block then reaches past the memory it owns."""
+    n = 0
+    for f in files:
+        for fid in fx.fn_ids(f):
+            if "::tests::" in fid:
+                continue
+            fn = Fn(fx.raw(fid))
+            for (b, i), st in fn.iter_locs():
+                if st[0] != "a" or st[2][0] != "agg" or st[2][1] != "adt:" + adt + "::" + adt.rsplit("::", 1)[-1]:
+                    continue
+                names = st[2][3]
+                if len_field not in names or cap_field not in names:
+                    continue
+                lo = st[2][2][names.index(len_field)]
+                co = st[2][2][names.index(cap_field)]
+                ll, cl = op_local(lo), op_local(co)
+                if ll is None or cl is None:
+                    continue
+                n += 1
+                ctx.analysed_fns.add(fid)
+                # derivation through plain statements only: what a map lookup or a pop returns does not derive from its key
+                lroots = fn.backslice([ll], max_nodes=80, call_through=lambda c: False)[0]
+                croots = fn.backslice([cl], max_nodes=200, call_through=lambda c: False)[0]
+                derived = bool(lroots & croots & set(range(1, fn.nargs + 1))) or ll in croots
+                guarded = False
+                if not derived:
+                    lfw, cfw = fn.forward_locals(lroots & set(range(1, fn.nargs + 1)) or [ll]), fn.forward_locals([cl]) | croots
+                    for (sb, si), s2 in fn.iter_locs():
+                        if s2[0] == "a" and s2[2][0] == "bin" and s2[2][1] in ("Lt", "Le", "Gt", "Ge") and len(s2[1]) == 1:
+                            a, bb = op_local(s2[2][2]), op_local(s2[2][3])
+                            if (a in lfw and bb in cfw) or (a in cfw and bb in lfw):
+                                for wb in fn.blocks():
+                                    t = fn.term(wb)
+                                    if t[0] == "sw" and op_local(t[1]) == s2[1][0] and fn.dominates(wb, b):
+                                        guarded = True
+                ok = derived or guarded
+                ctx.obligation(rule, fid, "%s vs %s at construction" % (cap_field, len_field), ok,
+                               sample={"fn": fid, "line": st[3], "capacity_derived_from_request": derived, "compared": guarded})
+                if not ok:
+                    ctx.violation(rule, fid, "%s unrelated to %s" % (cap_field, len_field),
+                                  "%s is built (line %s) with a %s that neither derives from the requested %s nor is compared with "
+                                  "it: a recycled region shorter than the request is handed out as if it were long enough"
+                                  % (adt.rsplit("::", 1)[-1], st[3], cap_field, len_field), fn.file, st[3])
+    ctx.instance(rule + ".constructions", n)
+    return n
+
+
+# ------------------------------------------------------------------ R-GUARD.cursor
+def guard_on_cursor(ctx, fx, fid, rule="R-GUARD.cursor"):
+    """a bump-style carve returns an offset read from a cursor field and refuses when the request does not fit. The
+    refusing test has to look at that same cursor (directly or in a bool helper): a test on a different counter
+    (bytes in use, which shrinks on free) lets the cursor run past the capacity."""
+    rec = fx.raw(fid)
+    if rec is None:
+        raise Exception("R-GUARD.cursor: %s not found" % fid)
+    fn = Fn(rec)
+    ctx.analysed_fns.add(fid)
+
+    def fields_read(f, roots, depth=0):
+        out = set()
+        locs, sites = f.backslice(roots, max_nodes=200, stop=lambda l: 1 <= l <= f.nargs)
+        for loc, kind, pl in sites:
+            if kind == "assign" and len(pl[1]) == 1:
+                for o in rv_operands(pl[2]):
+                    p = op_place(o)
+                    if p:
+                        named = [e for e in p[1:] if isinstance(e, str) and e.startswith(".") and "::" in e]
+                        if named:
+                            out.add(named[-1])      # the field actually read, not the structs it sits in
+            elif kind == "call" and depth < 2 and pl.get("loc") and fx.has(pl["f"]):
+                cf = Fn(fx.raw(pl["f"]))
+                out |= fields_read(cf, [0], depth + 1)
+        return out
+
+    # fields the successful result derives from
+    from rules.refusal import success_blocks
+    res_fields = set()
+    for b in success_blocks(fn):
+        for st in fn.stmts(b):
+            if st[0] == "a" and st[2][0] == "agg":
+                ls = [op_local(o) for o in st[2][2] if op_local(o) is not None]
+                res_fields |= fields_read(fn, ls)
+    from rules.pair import err_blocks
+    eb = err_blocks(fn)
+    guard_fields = set()
+    nguards = 0
+    for sb in fn.blocks():
+        t = fn.term(sb)
+        if t[0] != "sw":
+            continue
+        succs = fn.succ(sb)
+        if not (any(s in eb for s in succs) and any(s not in eb for s in succs)):
+            continue
+        l = op_local(t[1])
+        if l is None:
+            continue
+        nguards += 1
+        guard_fields |= fields_read(fn, [l])
+    common = {f for f in res_fields & guard_fields if not f.endswith("::capacity")}
+    ok = bool(common) or not res_fields
+    ctx.obligation(rule, fid, "refusal looks at the cursor", ok,
+                   sample={"fn": fid, "result_from": sorted(x.rsplit("::", 1)[-1] for x in res_fields)[:5],
+                           "refusing_tests_read": sorted(x.rsplit("::", 1)[-1] for x in guard_fields)[:6], "refusing_tests": nguards})
+    if not ok:
+        ctx.violation(rule, fid, "capacity test ignores the carve cursor",
+                      "the offset returned by %s comes from %s, but the refusing test(s) only read %s: the cursor is never compared "
+                      "with the capacity, so a carve can start at or beyond the end of the chunk" %
+                      (fid.rsplit("::", 1)[-1], sorted(x.rsplit("::", 1)[-1] for x in res_fields)[:4],
+                       sorted(x.rsplit("::", 1)[-1] for x in guard_fields)[:4]), fn.file, fn.line)
+    return 1
